@@ -14,11 +14,21 @@ var (
 	c05Services = []string{"svc-a", "svc-b", "svc-c", "svc-d"}
 	c05Hosts    = []string{"a.com", "b.com", "x.y.org", "c.net:8080", ""}
 	c05Paths    = []string{"/", "/a", "/a/b", "/c/", "/A"}
-	c05Dsts     = []string{"http://10.0.0.1:80/", "http://10.0.0.2:8080/", "https://10.0.0.3:443/", "http://10.0.0.4:80/x?y=1", "http://[::1]:8000/", "http://h5:80"}
-	c05Weights  = []float64{0, 0, 0.05, 0.1, 0.25, 0.3333, 0.5, 0.75, 1, 1.5, 2}
+	c05Dsts     = []string{"http://10.0.0.1:80/", "http://10.0.0.2:8080/", "https://10.0.0.3:443/", "http://10.0.0.4:80/x?y=1", "http://[::1]:8000/", "http://h5:80", "http://10.0.0.6:80/caf\u00e9", "http://10.0.0.7:80/#"}
+	c05Weights  = []float64{0, 0, -1, -0.5, 0.05, 0.1, 0.25, 0.3333, 0.5, 0.75, 1, 1.5, 2}
 	c05Tags     = []string{"a", "b", "c", "d"}
 	c05OptPool  = []string{"strip=/a", "prepend=/p", "proto=https", "host=dst", "host=x.com", "tlsskipverify=true", "register=alias", "redirect=301", "pxyproto=true", "flag"}
 )
+
+// c05Spell returns an equivalent spelling of a destination URL (same URL after parsing).
+func c05Spell(r *rand.Rand, dst string) string {
+	if r.Intn(4) == 0 {
+		if i := strings.Index(dst, "://"); i > 0 {
+			return strings.ToUpper(dst[:i]) + dst[i:]
+		}
+	}
+	return dst
+}
 
 type c05Script struct {
 	Lines []string
@@ -71,7 +81,7 @@ func genScript(r *rand.Rand, n int) (*c05Script, refmodel.Table) {
 				}
 				optsFor[key] = o
 			}
-			d = refmodel.Def{Cmd: "add", Service: svc, Src: w, Dst: dst, Weight: choose(r, c05Weights), Tags: subset(r, c05Tags, 3), Opts: optsFor[key]}
+			d = refmodel.Def{Cmd: "add", Service: svc, Src: w, Dst: c05Spell(r, dst), Weight: choose(r, c05Weights), Tags: subset(r, c05Tags, 3), Opts: optsFor[key]}
 		case k < 8:
 			d = refmodel.Def{Cmd: "del"}
 			switch r.Intn(5) {
@@ -83,7 +93,7 @@ func genScript(r *rand.Rand, n int) (*c05Script, refmodel.Table) {
 			case 2:
 				d.Service = choose(r, c05Services)
 				_, d.Src = src()
-				d.Dst = choose(r, c05Dsts)
+				d.Dst = c05Spell(r, choose(r, c05Dsts))
 			case 3:
 				d.Service = choose(r, c05Services)
 				d.Tags = subset(r, c05Tags, 2)
@@ -97,7 +107,7 @@ func genScript(r *rand.Rand, n int) (*c05Script, refmodel.Table) {
 				}
 			}
 		default:
-			d = refmodel.Def{Cmd: "weight", Weight: choose(r, c05Weights[2:])}
+			d = refmodel.Def{Cmd: "weight", Weight: choose(r, c05Weights[1:])}
 			_, d.Src = src()
 			switch r.Intn(3) {
 			case 0:
